@@ -47,9 +47,24 @@ def run(ctx):
     scs = scenarios(thorough)
     results = ctx.harness_parallel("listeners_physical.py", [{"scenarios": [s]} for s in scs], procs=14, timeout=3000)
     traces, notes = [], []
+    laws = {"frame": {"checked": 0, "failed": 0, "examples": []}, "cone": {"checked": 0, "failed": 0, "examples": []}}
     for r in results:
         traces += r["traces"]
         notes += r["notes"]
+        for k, v in r.get("laws", {}).items():
+            laws[k]["checked"] += v["checked"]
+            laws[k]["failed"] += v["failed"]
+            laws[k]["examples"] += v["examples"]
+    ctx.clause("light listener: being lit or not does not depend on the frame the listener is asked to compute in", max(laws["frame"]["checked"], 1),
+               laws["frame"]["failed"])
+    ctx.clause("light listener: away from the boundaries (3 km) it agrees with an independent conical-shadow computation", max(laws["cone"]["checked"], 1),
+               laws["cone"]["failed"])
+    for ex in laws["frame"]["examples"][:4]:
+        ctx.violation("physical/light-frame", f"LightListener({ex['type']}, frame={ex['frame']}) gives {ex['value']} where the default frame gives "
+                                              f"{ex['value_default_frame']} ({ex['scenario']} at {ex['t_s']:.0f} s)", ex)
+    for ex in laws["cone"]["examples"][:4]:
+        ctx.violation("physical/light-cone", f"LightListener({ex['type']}) = {ex['listener']} although the satellite is {ex['margin_m']:.0f} m "
+                                             f"{'outside' if ex['margin_m'] > 0 else 'inside'} the independent shadow cone ({ex['scenario']} at {ex['t_s']:.0f} s)", ex)
     path = os.path.join(ctx.scratch, "phys-traces.json")
     with open(path, "w") as fh:
         json.dump({"traces": [{"classes": t["classes"], "items": t["items"]} for t in traces]}, fh)
